@@ -119,7 +119,9 @@ def measure_table_fn(fword, K, thorough=False):
     evals = 0
     hints = set()
     coarse = [int(v) for v in np.linspace(0, n_hi - 1, 64)]
-    cols = [min(n_hi - 1, max(0, int(round(k * n_hi / K)) + d)) for k in range(K + 1) for d in (-2, -1, 0, 1, 2)]
+    # geometric ladders on both sides of every alias-column boundary (see rv.piecewise.standard_probes)
+    steps = [0] + [2 ** e for e in range(0, 24)]
+    cols = sorted({min(n_hi - 1, max(0, int(round(k * n_hi / K)) + sg * d)) for k in range(K + 1) for d in steps for sg in (-1, 1)})
     dense = [int(v) for v in np.linspace(0, n_hi - 1, max(400, 20 * K))]
     dense_done = False
     for b in range(256):
